@@ -76,6 +76,11 @@ def jobs(tier):
             add('committor_job', 'committors[n=4,%s,[0,1]->[2,3]]' % fmt, n=4, sources=[0, 1], sinks=[2, 3], container=fmt)
             add('mfpt_job', 'mfpt[n=2,%s,all-pairs]' % fmt, n=2, container=fmt)
     add('mfpt_job', 'mfpt[n=2,all-pairs]', n=2)
+    # populations not supplied: mfpts derives them from the matrix
+    add('mfpt_job', 'mfpt[n=2,all-pairs,populations=None]', n=2, given_pops=False)
+    if not q:
+        add('mfpt_job', 'mfpt[n=3,all-pairs,populations=None]', n=3, given_pops=False)      # (does not finish within the quick budget)
+    add('mfpt_job', 'mfpt[n=3,sink=1,populations=None]', n=3, sinks=[1], given_pops=False)
     if not q:
         add('mfpt_job', 'mfpt[n=3,all-pairs]', n=3)
     return J
